@@ -26,6 +26,15 @@ type boolGroup struct {
 }
 
 func boolGroups(p *Program, f *FuncInfo) []boolGroup {
+	// the function and the private helpers it was split into
+	var out []boolGroup
+	for _, g := range p.CalleeClosure(f, 2) {
+		out = append(out, boolGroupsIn(p, g)...)
+	}
+	return out
+}
+
+func boolGroupsIn(p *Program, f *FuncInfo) []boolGroup {
 	info := f.Info()
 	seen := map[ast.Expr]bool{}
 	var out []boolGroup
